@@ -20,9 +20,27 @@
 (* Processes: "D" the data writer (one call per message: prepWrite, then per  *)
 (* frame Acquire; check latch; TWrite(hdr); [TWrite(extra)]; Release), "K1".. *)
 (* control senders (per call Acquire; check latch; TWrite(ctl); [latch        *)
-(* close-sent]; Release), "X" the closer.  The reader is omitted (independent *)
-(* state).  `Begin(p)` is the application calling into the library; it only   *)
-(* remembers whether a Close frame was on the wire at that moment.            *)
+(* close-sent]; Release), "X" the closer.  `Begin(p)` is the application      *)
+(* calling into the library; it only remembers whether a Close frame was on   *)
+(* the wire at that moment.                                                   *)
+(*                                                                            *)
+(* "R" is the READING goroutine as far as it writes: the peer's Ping and      *)
+(* Close frames arrive at any point and their handlers run on the reader; a   *)
+(* handler's answer (pong / echoed close) is a control write like any other   *)
+(* (WriteControl: the write lock, the latch check under it, one transport     *)
+(* write) and never touches the message the data writer has open.  `Begin`    *)
+(* of R is the peer's frame reaching the handler; R's program `rd` is the     *)
+(* sequence of answers ("pong"/"close": a handler of the application calling  *)
+(* WriteControl without deadline; "pong@"/"close@": the package's default     *)
+(* handler, whose deadline is writeWait - it may give up like a "~" call and  *)
+(* its result is not visible to the application).  The reader stops reading   *)
+(* after a Close frame of the peer and when the transport is closed.          *)
+(*                                                                            *)
+(* The application of D may pause while its message is open: `hold[m][f]` is  *)
+(* the number of times it does so before frame f of message m reaches the     *)
+(* library's flush (after NextWriter, between two Write calls: bytes          *)
+(* buffered and not flushed, between two frames).  D is then in "app"         *)
+(* (outside every critical section, the message writer open) until `Resume`.  *)
 (*                                                                            *)
 (* The program is a VARIABLE that never changes: MC/Gen fix it by the         *)
 (* CONSTANT Program, Trace_WsConc sets it per recorded schedule.              *)
@@ -36,6 +54,12 @@
 (*                             lock "releases" it all the same (the release   *)
 (*                             is deferred before the lock is acquired): a    *)
 (*                             second token circulates in the 1-slot channel  *)
+(*   HandlerControlPath = FALSE  "pong-through-data-path": a handler running  *)
+(*                             on the reader answers through the message path *)
+(*                             (WriteMessage): its prepWrite closes the       *)
+(*                             message writer D has open - D's buffered bytes *)
+(*                             go out as a final frame written by R, D's      *)
+(*                             message is truncated and its next call fails   *)
 (*                                                                            *)
 (* Deadlines.  A control opcode with the suffix "~" ("ping~") is sent with a  *)
 (* SHORT deadline: WriteControl waits for the lock in                         *)
@@ -48,14 +72,19 @@
 (* have a deadline far away (or none): they wait for ever.                    *)
 EXTENDS Naturals, Sequences, FiniteSets, TLC
 
-CONSTANTS Program,            \* [msgs, ctl, closer]:
+CONSTANTS Program,            \* [msgs, hold, ctl, rd, closer]:
                               \*   msgs   = sequence of messages, message = sequence of frames,
                               \*            frame = BOOLEAN (TRUE: a second transport write `extra`)
                               \*   ctl    = sequence (one per control sender) of sequences of
                               \*            opcodes in {"ping", "pong", "close"}, with "~" appended
                               \*            for a short deadline
+                              \*   hold   = per message, per frame: number of pauses of D's
+                              \*            application before that frame
+                              \*   rd     = sequence of the answers of the reader's handlers
+                              \*            ("pong", "close"; "@" appended: default handler)
                               \*   closer = BOOLEAN (is there a process calling Conn.Close)
-          ControlTakesLock, FlushAtomic, LatchChecked, CloseLatches, TimeoutReleases
+          ControlTakesLock, FlushAtomic, LatchChecked, CloseLatches, TimeoutReleases,
+          HandlerControlPath
 
 VARIABLES prog,    \* the program (see Program)
           lock,    \* holder of `mu`, or NoProc
@@ -65,28 +94,36 @@ VARIABLES prog,    \* the program (see Program)
           pc,      \* per process
           call,    \* per process: number of calls begun
           fr,      \* D: frame index inside the current message
+          hp,      \* D: pauses of the application left before frame fr
           err,     \* per process: result of the call in progress
           late,    \* per process: a Close frame was on the wire when the call began
           res      \* per process: sequence of [r, late] of the calls that returned
 
-vars == <<prog, lock, latch, closed, wire, pc, call, fr, err, late, res>>
+vars == <<prog, lock, latch, closed, wire, pc, call, fr, hp, err, late, res>>
 
 NoProc == "-"
 KName(i) == "K" \o ToString(i)
 KProcsOf(pr) == {KName(i) : i \in 1..Len(pr.ctl)}
-ProcsOf(pr)  == {"D"} \cup KProcsOf(pr) \cup (IF pr.closer THEN {"X"} ELSE {})
+\* the processes that send control frames: the senders K.. and the reader R (if the peer sends anything)
+CProcsOf(pr) == KProcsOf(pr) \cup (IF Len(pr.rd) > 0 THEN {"R"} ELSE {})
+ProcsOf(pr)  == {"D"} \cup CProcsOf(pr) \cup (IF pr.closer THEN {"X"} ELSE {})
 KProcs == KProcsOf(prog)
+CProcs == CProcsOf(prog)
 Procs  == ProcsOf(prog)
 KIdx(p) == CHOOSE i \in 1..Len(prog.ctl) : KName(i) = p
+CtlSeq(p) == IF p = "R" THEN prog.rd ELSE prog.ctl[KIdx(p)]
 NCalls(p) == IF p = "D" THEN Len(prog.msgs)
-             ELSE IF p = "X" THEN 1 ELSE Len(prog.ctl[KIdx(p)])
+             ELSE IF p = "X" THEN 1 ELSE Len(CtlSeq(p))
 IsShort(o) == o \in {"ping~", "pong~", "close~"}
-Code(o) == CASE o = "ping~" -> "ping" [] o = "pong~" -> "pong" [] o = "close~" -> "close" [] OTHER -> o
-Op(p)    == Code(prog.ctl[KIdx(p)][call[p]])   \* K: opcode of the call in progress
-Short(p) == IsShort(prog.ctl[KIdx(p)][call[p]]) \* K: the call in progress has a short deadline
+IsDflt(o)  == o \in {"pong@", "close@"}          \* sent by a default handler (deadline writeWait)
+Code(o) == CASE o = "ping~" -> "ping" [] o = "pong~" -> "pong" [] o = "close~" -> "close"
+             [] o = "pong@" -> "pong" [] o = "close@" -> "close" [] OTHER -> o
+Op(p)    == Code(CtlSeq(p)[call[p]])            \* K, R: opcode of the call in progress
+Short(p) == IsShort(CtlSeq(p)[call[p]])         \* K: the call in progress has a short deadline
+Bounded(p) == Short(p) \/ IsDflt(CtlSeq(p)[call[p]])   \* ... a deadline it may give up on
 Msg    == prog.msgs[call["D"]]                 \* D: message in progress
 HasExtra(e) == e.proc = "D" /\ prog.msgs[e.call][e.frame]
-IsClose(e)  == e.part = "ctl" /\ Code(prog.ctl[KIdx(e.proc)][e.call]) = "close"
+IsClose(e)  == e.part = "ctl" /\ Code(CtlSeq(e.proc)[e.call]) = "close"
 CloseOnWire == \E i \in 1..Len(wire) : IsClose(wire[i])
 
 InitWith(pr) ==
@@ -94,7 +131,7 @@ InitWith(pr) ==
   /\ lock = NoProc /\ latch = "none" /\ closed = FALSE /\ wire = <<>>
   /\ pc   = [p \in ProcsOf(pr) |-> "idle"]
   /\ call = [p \in ProcsOf(pr) |-> 0]
-  /\ fr = 0
+  /\ fr = 0 /\ hp = 0
   /\ err  = [p \in ProcsOf(pr) |-> "nil"]
   /\ late = [p \in ProcsOf(pr) |-> FALSE]
   /\ res  = [p \in ProcsOf(pr) |-> <<>>]
@@ -104,15 +141,31 @@ Init == InitWith(Program)
 Failed == LatchChecked /\ latch # "none"
 
 \* --------------------------------------------------------------- application
-\* the application calls WriteMessage / NextWriter.., WriteControl or Close
+\* the reader reads no further: the transport is closed or the peer's Close frame was handled
+RStopped == closed \/ \E j \in 1..call["R"] : Code(prog.rd[j]) = "close"
+
+\* the application calls WriteMessage / NextWriter.., WriteControl or Close;
+\* for R: a Ping / Close frame of the peer reaches its handler on the reading goroutine
 Begin(p) ==
   /\ pc[p] = "idle" /\ call[p] < NCalls(p)
+  /\ p = "R" => ~RStopped
   /\ call' = [call EXCEPT ![p] = @ + 1]
-  /\ pc'   = [pc EXCEPT ![p] = IF p = "D" THEN "prep" ELSE IF p = "X" THEN "close" ELSE "acq"]
+  /\ pc'   = [pc EXCEPT ![p] = IF p = "D" THEN "prep" ELSE IF p = "X" THEN "close"
+                                ELSE IF p = "R" /\ ~HandlerControlPath THEN "pre" ELSE "acq"]
   /\ err'  = [err EXCEPT ![p] = "nil"]
   /\ late' = [late EXCEPT ![p] = CloseOnWire]
   /\ fr' = IF p = "D" THEN 1 ELSE fr
-  /\ UNCHANGED <<prog, lock, latch, closed, wire, res>>
+  /\ UNCHANGED <<prog, lock, latch, closed, wire, hp, res>>
+
+\* D's application goes on with the open message (next Write / Close of the message writer)
+Resume ==
+  /\ pc["D"] = "app"
+  /\ hp' = hp - 1
+  /\ pc' = [pc EXCEPT !["D"] = IF hp = 1 THEN "acq" ELSE "app"]
+  /\ UNCHANGED <<prog, lock, latch, closed, wire, call, fr, err, late, res>>
+
+\* where D goes before frame f of its message: to the application if that pauses, else to the flush
+ToFrame(f) == IF prog.hold[call["D"]][f] > 0 THEN "app" ELSE "acq"
 
 \* ------------------------------------------------------------------ library
 \* prepWrite: the sticky error is read before a message, without the lock
@@ -120,8 +173,9 @@ Prep ==
   /\ pc["D"] = "prep"
   /\ IF Failed THEN /\ err' = [err EXCEPT !["D"] = latch]
                     /\ pc'  = [pc EXCEPT !["D"] = "ret"]
-               ELSE /\ pc'  = [pc EXCEPT !["D"] = "acq"]
+               ELSE /\ pc'  = [pc EXCEPT !["D"] = ToFrame(1)]
                     /\ UNCHANGED err
+  /\ hp' = prog.hold[call["D"]][1]
   /\ UNCHANGED <<prog, lock, latch, closed, wire, call, fr, late, res>>
 
 \* <-c.mu (write) / select { case <-c.mu: .. } (WriteControl; its deadline is far away)
@@ -131,18 +185,18 @@ Acquire(p) ==
        THEN lock = NoProc /\ lock' = p
        ELSE UNCHANGED lock
   /\ pc' = [pc EXCEPT ![p] = "chk"]
-  /\ UNCHANGED <<prog, latch, closed, wire, call, fr, err, late, res>>
+  /\ UNCHANGED <<prog, latch, closed, wire, call, fr, hp, err, late, res>>
 
 \* case <-timer.C: return errWriteTimeout   (only a call with a short deadline gets here).
 \* Deviation TimeoutReleases: the deferred `c.mu <- true` runs although the lock was never
 \* taken; with the channel empty (somebody holds the lock) the send succeeds and the lock
 \* looks free while its holder is still writing; with the channel full the send blocks.
 Timeout(p) ==
-  /\ p \in KProcs /\ pc[p] = "acq" /\ Short(p) /\ ControlTakesLock
+  /\ p \in CProcs /\ pc[p] = "acq" /\ Bounded(p) /\ ControlTakesLock
   /\ IF TimeoutReleases THEN lock # NoProc /\ lock' = NoProc ELSE UNCHANGED lock
   /\ err' = [err EXCEPT ![p] = "timeout"]
   /\ pc'  = [pc EXCEPT ![p] = "ret"]
-  /\ UNCHANGED <<prog, latch, closed, wire, call, fr, late, res>>
+  /\ UNCHANGED <<prog, latch, closed, wire, call, fr, hp, late, res>>
 
 \* the sticky error is read again under the lock, before anything is written
 Check(p) ==
@@ -151,41 +205,55 @@ Check(p) ==
                     /\ pc'  = [pc EXCEPT ![p] = "rel"]
                ELSE /\ pc'  = [pc EXCEPT ![p] = IF p = "D" THEN "hdr" ELSE "ctl"]
                     /\ UNCHANGED err
-  /\ UNCHANGED <<prog, lock, latch, closed, wire, call, fr, late, res>>
+  /\ UNCHANGED <<prog, lock, latch, closed, wire, call, fr, hp, late, res>>
 
-Entry(p) == [proc |-> p, call |-> call[p], frame |-> IF p = "D" THEN fr ELSE 1, part |-> pc[p]]
+Entry(p) == IF pc[p] = "steal"     \* (deviation) D's buffered bytes, flushed by R as a frame of D's message
+              THEN [proc |-> p, call |-> call["D"], frame |-> fr, part |-> "hdr"]
+              ELSE [proc |-> p, call |-> call[p], frame |-> IF p = "D" THEN fr ELSE 1, part |-> pc[p]]
 
-\* one net.Conn.Write.  On failure writeFatal(err) latches it (first error wins)
+\* one net.Conn.Write.  On failure writeFatal(err) latches it (first error wins) - after the
+\* transport call has returned: a call that begins in between still finds the latch open
 TWrite(p) ==
-  /\ pc[p] \in {"hdr", "extra", "ctl"}
+  /\ pc[p] \in {"hdr", "extra", "ctl", "steal"}
   /\ IF closed
-       THEN /\ latch' = IF latch = "none" THEN "other" ELSE latch
-            /\ err'   = [err EXCEPT ![p] = "other"]
-            /\ pc'    = [pc EXCEPT ![p] = "rel"]
-            /\ UNCHANGED wire
+       THEN /\ err'   = [err EXCEPT ![p] = "other"]
+            /\ pc'    = [pc EXCEPT ![p] = "fatal"]
+            /\ UNCHANGED <<wire, latch>>
        ELSE /\ wire' = Append(wire, Entry(p))
-            /\ pc' = [pc EXCEPT ![p] =
-                 CASE pc[p] = "hdr" /\ Msg[fr]  -> IF FlushAtomic THEN "extra" ELSE "rel1"
-                   [] pc[p] = "hdr" /\ ~Msg[fr] -> "rel"
-                   [] pc[p] = "extra"           -> "rel"
-                   [] pc[p] = "ctl"             -> IF Op(p) = "close" THEN "latch" ELSE "rel"]
-            /\ UNCHANGED <<latch, err>>
-  /\ UNCHANGED <<prog, lock, closed, call, fr, late, res>>
+            /\ IF pc[p] = "steal"
+                 THEN \* (deviation) the message writer D had open is closed behind its back
+                      /\ pc'  = [pc EXCEPT ![p] = "srel", !["D"] = "ret"]
+                      /\ err' = [err EXCEPT !["D"] = "other"]
+                      /\ UNCHANGED latch
+                 ELSE /\ pc' = [pc EXCEPT ![p] =
+                           CASE pc[p] = "hdr" /\ Msg[fr]  -> IF FlushAtomic THEN "extra" ELSE "rel1"
+                             [] pc[p] = "hdr" /\ ~Msg[fr] -> "rel"
+                             [] pc[p] = "extra"           -> "rel"
+                             [] pc[p] = "ctl"             -> IF Op(p) = "close" THEN "latch" ELSE "rel"]
+                      /\ UNCHANGED <<latch, err>>
+  /\ UNCHANGED <<prog, lock, closed, call, fr, hp, late, res>>
+
+\* return c.writeFatal(err)   (still under the lock)
+Fatal(p) ==
+  /\ pc[p] = "fatal"
+  /\ latch' = IF latch = "none" THEN "other" ELSE latch
+  /\ pc' = [pc EXCEPT ![p] = "rel"]
+  /\ UNCHANGED <<prog, lock, closed, wire, call, fr, hp, err, late, res>>
 
 \* if frameType == CloseMessage { c.writeFatal(ErrCloseSent) }   (still under the lock)
 SetLatch(p) ==
   /\ pc[p] = "latch"
   /\ latch' = IF CloseLatches /\ latch = "none" THEN "closesent" ELSE latch
   /\ pc' = [pc EXCEPT ![p] = "rel"]
-  /\ UNCHANGED <<prog, lock, closed, wire, call, fr, err, late, res>>
+  /\ UNCHANGED <<prog, lock, closed, wire, call, fr, hp, err, late, res>>
 
 \* c.mu <- true; D goes on with the next frame of the message unless the frame failed
 Release(p) ==
   /\ pc[p] = "rel"
   /\ lock' = IF lock = p THEN NoProc ELSE lock
   /\ IF p = "D" /\ err[p] = "nil" /\ fr < Len(Msg)
-       THEN fr' = fr + 1 /\ pc' = [pc EXCEPT ![p] = "acq"]
-       ELSE UNCHANGED fr /\ pc' = [pc EXCEPT ![p] = "ret"]
+       THEN fr' = fr + 1 /\ pc' = [pc EXCEPT ![p] = ToFrame(fr + 1)] /\ hp' = prog.hold[call["D"]][fr + 1]
+       ELSE UNCHANGED <<fr, hp>> /\ pc' = [pc EXCEPT ![p] = "ret"]
   /\ UNCHANGED <<prog, latch, closed, wire, call, err, late, res>>
 
 \* deviation FlushAtomic = FALSE: the lock is given up between header and extra
@@ -193,7 +261,7 @@ Rel1 ==
   /\ pc["D"] = "rel1"
   /\ lock' = NoProc
   /\ pc' = [pc EXCEPT !["D"] = "acq2"]
-  /\ UNCHANGED <<prog, latch, closed, wire, call, fr, err, late, res>>
+  /\ UNCHANGED <<prog, latch, closed, wire, call, fr, hp, err, late, res>>
 Acq2 ==
   /\ pc["D"] = "acq2" /\ lock = NoProc
   /\ lock' = "D"
@@ -201,29 +269,48 @@ Acq2 ==
                     /\ pc'  = [pc EXCEPT !["D"] = "rel"]
                ELSE /\ pc'  = [pc EXCEPT !["D"] = "extra"]
                     /\ UNCHANGED err
-  /\ UNCHANGED <<prog, latch, closed, wire, call, fr, late, res>>
+  /\ UNCHANGED <<prog, latch, closed, wire, call, fr, hp, late, res>>
+
+\* deviation HandlerControlPath = FALSE: the handler's answer goes through WriteMessage, whose
+\* prepWrite closes the message writer that is open - D's, if D is between two flushes - by
+\* flushing what is buffered as a final frame (under the lock), and only then sends the answer
+DOpen == pc["D"] \in {"app", "acq"}
+Pre ==
+  /\ pc["R"] = "pre"
+  /\ IF DOpen THEN /\ lock = NoProc /\ lock' = "R"
+                    /\ pc' = [pc EXCEPT !["R"] = "steal"]
+               ELSE /\ pc' = [pc EXCEPT !["R"] = "acq"]
+                    /\ UNCHANGED lock
+  /\ UNCHANGED <<prog, latch, closed, wire, call, fr, hp, err, late, res>>
+SRel ==
+  /\ pc["R"] = "srel"
+  /\ lock' = NoProc
+  /\ pc' = [pc EXCEPT !["R"] = "acq"]
+  /\ UNCHANGED <<prog, latch, closed, wire, call, fr, hp, err, late, res>>
 
 \* Conn.Close: c.conn.Close(), no lock, no latch
 XClose ==
   /\ "X" \in Procs /\ pc["X"] = "close"
   /\ closed' = TRUE
   /\ pc' = [pc EXCEPT !["X"] = "ret"]
-  /\ UNCHANGED <<prog, lock, latch, wire, call, fr, err, late, res>>
+  /\ UNCHANGED <<prog, lock, latch, wire, call, fr, hp, err, late, res>>
 
 Return(p) ==
   /\ pc[p] = "ret"
   /\ res' = [res EXCEPT ![p] = Append(@, [r |-> err[p], late |-> late[p]])]
   /\ pc'  = [pc EXCEPT ![p] = "idle"]
-  /\ UNCHANGED <<prog, lock, latch, closed, wire, call, fr, err, late>>
+  /\ UNCHANGED <<prog, lock, latch, closed, wire, call, fr, hp, err, late>>
 
 \* steps the transport does not see
 Steady(p)   == \/ (p = "D" /\ (Prep \/ Rel1 \/ Acq2))
-               \/ Acquire(p) \/ Check(p) \/ SetLatch(p) \/ Release(p) \/ Return(p)
+               \/ (p = "R" /\ (Pre \/ SRel))
+               \/ Acquire(p) \/ Check(p) \/ SetLatch(p) \/ Fatal(p) \/ Release(p) \/ Return(p)
 Internal(p) == Steady(p) \/ Timeout(p)
 
-Done == \A p \in Procs : pc[p] = "idle" /\ call[p] = NCalls(p)
+Done == \A p \in Procs : pc[p] = "idle" /\ (call[p] = NCalls(p) \/ (p = "R" /\ RStopped))
 
 Next == \/ \E p \in Procs : Begin(p) \/ TWrite(p) \/ Internal(p)
+        \/ Resume
         \/ XClose
         \/ (Done /\ UNCHANGED vars)
 
@@ -236,12 +323,12 @@ TypeOK ==
   /\ closed \in BOOLEAN
   /\ \A i \in 1..Len(wire) : /\ wire[i].proc \in Procs \ {"X"}
                              /\ wire[i].part \in {"hdr", "extra", "ctl"}
-                             /\ (wire[i].part = "ctl") = (wire[i].proc \in KProcs)
+  /\ hp \in Nat /\ (pc["D"] = "app" => hp > 0)
   /\ \A p \in Procs : /\ call[p] \in 0..NCalls(p)
                       /\ Len(res[p]) \in {call[p], call[p] - 1}
 
 \* the lock is held exactly inside the critical sections
-LockOK == /\ lock # NoProc => pc[lock] \in {"chk", "hdr", "extra", "ctl", "latch", "rel", "rel1"}
+LockOK == /\ lock # NoProc => pc[lock] \in {"chk", "hdr", "extra", "ctl", "latch", "fatal", "rel", "rel1", "steal", "srel"}
           /\ pc["D"] \in {"chk", "hdr", "extra", "rel1"} => lock = "D"
 
 \* the transport writes of one frame are adjacent: a header that needs `extra` is
@@ -253,12 +340,17 @@ WholeFrames ==
           => wire[i + 1] = [wire[i] EXCEPT !.part = "extra"]
     /\ wire[i].part = "extra" => (i > 1 /\ wire[i - 1] = [wire[i] EXCEPT !.part = "hdr"])
 
+\* the frames of a data message are exactly what the data writer wrote: every transport write
+\* that carries (part of) a data frame is D's, every control frame is one whole write of its sender
+MsgIntact ==
+  \A i \in 1..Len(wire) : (wire[i].part = "ctl") = (wire[i].proc \in CProcs)
+
 \* nothing reaches the wire after a Close frame
 AfterCloseWire == \A i \in 1..Len(wire) : IsClose(wire[i]) => i = Len(wire)
 
 \* a write call that began when a Close frame was on the wire fails with close-sent
 \* (a control write with a short deadline may instead have given up waiting for the lock)
-ShortCall(p, j) == p \in KProcs /\ IsShort(prog.ctl[KIdx(p)][j])
+ShortCall(p, j) == p \in CProcs /\ (IsShort(CtlSeq(p)[j]) \/ IsDflt(CtlSeq(p)[j]))
 AfterCloseRes ==
   \A p \in Procs \ {"X"} : \A j \in 1..Len(res[p]) :
      res[p][j].late => \/ res[p][j].r = "closesent"
@@ -283,7 +375,7 @@ ResultsHonest ==
         \A f \in 1..Len(prog.msgs[j]) :
           /\ OnWire([proc |-> "D", call |-> j, frame |-> f, part |-> "hdr"])
           /\ prog.msgs[j][f] => OnWire([proc |-> "D", call |-> j, frame |-> f, part |-> "extra"])
-  /\ \A p \in KProcs : \A j \in 1..Len(res[p]) : res[p][j].r = "nil" =>
+  /\ \A p \in CProcs : \A j \in 1..Len(res[p]) : res[p][j].r = "nil" =>
         OnWire([proc |-> p, call |-> j, frame |-> 1, part |-> "ctl"])
   /\ \A p \in Procs : \A j \in 1..Len(res[p]) :
         \/ res[p][j].r \in {"nil", "closesent", "other"}
